@@ -152,7 +152,8 @@ struct Ctx
    std::string kind, op;
    bool sawRemove = false, reuse = false, growthLive = false, mixedOverlap = false;
    int executed = 0;
-   Ctx(Verdict& vv) : v(vv) {}
+   std::set<std::string> known;
+   Ctx(Verdict& vv) : v(vv), known(knownKeys()) {}
    void fail(const std::string& m)
    {
       v.fail(kind + "." + op + ": " + m);
@@ -718,9 +719,19 @@ template <class R> static SpVec genVec(Rng& g, int nnz, int dim, std::vector<int
 
 static const int SVDIM = 24;
 
+template <class R> struct Other;
+template <> struct Other<double>
+{
+   typedef Rat T;
+};
+template <> struct Other<Rat>
+{
+   typedef double T;
+};
 template <class R> struct AdSV
 {
    typedef sp::SVSetBase<R> S;
+   typedef AdSV<typename Other<R>::T> X;
    static const int NSIDE = 0;
    static const bool full = true;
    static S* make(int pmax, int pmem)
@@ -828,6 +839,7 @@ template <class R> struct AdSV
 template <class R> struct AdRow
 {
    typedef sp::LPRowSetBase<R> S;
+   typedef AdRow<typename Other<R>::T> X;
    static const int NSIDE = 3;
    static const bool full = false;
    static S* make(int pmax, int pmem)
@@ -908,6 +920,7 @@ template <class R> struct AdRow
 template <class R> struct AdCol
 {
    typedef sp::LPColSetBase<R> S;
+   typedef AdCol<typename Other<R>::T> X;
    static const int NSIDE = 3;
    static const bool full = false;
    static S* make(int pmax, int pmem)
@@ -1107,6 +1120,47 @@ struct VSetRunner
       }
       CHK(c.isConsistent(), "isConsistent() false");
    }
+   // known finding svset-xtend-last-mempack: xtend() of the vector that lies last in the nonzero memory, when the
+   // memory is exhausted, may run memPack() and then reallocates without fixing the vectors' pointers. With the key
+   // listed, the nonzero memory is enlarged first (what a careful caller can do), so the search continues behind it.
+   void guardXtend(int i, int newmax)
+   {
+      if(!cx.known.count("svset-xtend-last-mempack")) return;
+      const sp::SVectorBase<R>& v = A::vec(*s, i);
+      if(v.max() >= newmax) return;
+      for(int j = 0; j < s->num(); j++) if(A::vec(*s, j).mem() > v.mem()) return;
+      if(s->memSize() + newmax - v.max() <= s->memMax()) return;
+      s->memRemax(s->memSize() + newmax - v.max() + 1);
+      ev().count("excluded_known.svset-xtend-last-mempack");
+   }
+   // content of a set as a multiset of serialised vectors (keys and numbering ignored)
+   template <class R2, class A2> std::multiset<std::string> contentOf(const typename A2::S& t)
+   {
+      std::multiset<std::string> c;
+      for(int i = 0; i < t.num(); i++)
+      {
+         std::map<int, Q> m;
+         const sp::SVectorBase<R2>& v = A2::vec(t, i);
+         for(int j = 0; j < v.size(); j++) m[v.index(j)] += Num<R2>::to(v.value(j));
+         std::string z = std::to_string(v.size()) + ":";
+         for(auto& kv : m) z += std::to_string(kv.first) + "=" + kv.second.get_str() + ",";
+         for(int q = 0; q < A2::NSIDE; q++) z += "|" + A2::side(t, i, q).get_str();
+         c.insert(z);
+      }
+      return c;
+   }
+   std::multiset<std::string> contentOfModel()
+   {
+      std::multiset<std::string> c;
+      for(int h : H.order)
+      {
+         std::string z = std::to_string(vec[h].size()) + ":";
+         for(auto& kv : vec[h]) z += std::to_string(kv.first) + "=" + kv.second.get_str() + ",";
+         for(int q = 0; q < A::NSIDE; q++) z += "|" + side[h][q].get_str();
+         c.insert(z);
+      }
+      return c;
+   }
    void removedPrefixCheck(const std::vector<int>& before, int firstRemoved)
    {
       // svsetbase.h: "all SVectorBase with a smaller number than the lowest number of the removed ones remain unchanged"
@@ -1233,6 +1287,7 @@ struct VSetRunner
          if(n == 0) return cx.skipped();
          int i = modn(r.i(1), n);
          int nm = A::vec(*s, i).max() + modn(r.i(2), 6) - 1;
+         guardXtend(i, nm);
          A::xtend(*s, i, nm);
          CHK(A::vec(*s, i).max() >= nm, "max() of the vector < newmax after xtend()");
          grown(before);
@@ -1253,6 +1308,7 @@ struct VSetRunner
                nv.push_back(Num<R>::from(q));
                vec[h][c] = q;
             }
+         guardXtend(i, A::vec(*s, i).size() + (int) ni.size());
          if(o == "add2")
          {
             if(ni.empty()) return cx.skipped();
@@ -1386,6 +1442,23 @@ struct VSetRunner
          s->memPack();
          for(int i = 0; i < n; i++)
             CHK(A::vec(*s, i).max() == A::vec(*s, i).size(), "max() != size() for a vector after memPack()");
+         check(true);
+      }
+      else if(o == "xcopy")
+      {
+         // conversion to the set over the other number type and back (exact for dyadic double data only); the
+         // templated copy/assignment re-adds the vectors, so keys and numbering are not compared, only the contents
+         if(Num<R>::exact) return cx.skipped();
+         typedef typename Other<R>::T R2;
+         typedef typename A::X A2;
+         typename A2::S t(*s);
+         CHK(t.num() == n, "num() of the converted copy differs");
+         CHK((contentOf<R2, A2>(t)) == contentOfModel(), "contents of the converted copy (other number type) differ");
+         S* back = A::make(1 + modn(r.i(1), 6), 1 + modn(r.i(3), 20));
+         *back = t;
+         CHK(back->num() == n, "num() after assignment from the other number type differs");
+         CHK((contentOf<R, A>(*back)) == contentOfModel(), "contents after assignment from the other number type differ");
+         delete back;
          check(true);
       }
       else if(o == "copy" || o == "assign")
@@ -2581,8 +2654,15 @@ struct VecRunner
    sp::SVSetBase<R> A;
    Dense mv[2], ms[3], msp[4];
    std::vector<Dense> mA;
+   bool unit;      // cancellation-friendly mode: all data +-1 / +-2, matrix columns restricted to the first three
 
-   VecRunner(Ctx& c, int dim, long matSeed) : cx(c), D(dim), tol(std::make_shared<sp::Tolerances>()), pbuf((size_t) dim + 3), U(0)
+   Q rv(Rng& g)
+   {
+      if(!unit) return rval<R>(g);
+      return Q((g.r(0, 3) == 0 ? 2 : 1) * (g.r(0, 1) ? 1 : -1));
+   }
+   VecRunner(Ctx& c, int dim, long matSeed) : cx(c), D(dim), tol(std::make_shared<sp::Tolerances>()), pbuf((size_t) dim + 3), U(0),
+      unit(matSeed % 3 == 0)
    {
       for(int k = 0; k < 2; k++)
       {
@@ -2601,16 +2681,31 @@ struct VecRunner
       mA.assign(D, Dense(D, Q(0)));
       for(int i = 0; i < D; i++)
       {
-         std::vector<int> idx = ridx(g, g.r(0, std::min(D, 4)), D);
+         std::vector<int> idx = ridx(g, g.r(0, std::min(D, 3)), unit ? std::min(D, 3) : D);
          sp::DSVectorBase<R> d(1);
          for(int j : idx)
          {
-            Q q = Q(g.r(1, 3) * (g.r(0, 1) ? 1 : -1)) * q2pow(g.r(-1, 1));
+            Q q = unit ? Q(g.r(0, 1) ? 1 : -1) : Q(g.r(1, 2) * (g.r(0, 1) ? 1 : -1)) * q2pow(g.r(-1, 0));
             mA[i][j] = q;
             d.add(j, Num<R>::from(q));
          }
          A.add(d);
       }
+      // every operand starts with some content (derived from the seed in the kind rec)
+      for(int k = 0; k < 2; k++)
+      {
+         mv[k] = genDense(g, g.r(1, D));
+         for(int i = 0; i < D; i++) V[k][i] = Num<R>::from(mv[k][i]);
+      }
+      for(int k = 0; k < 3; k++)
+      {
+         ms[k] = genDense(g, g.r(1, D));
+         sp::VectorBase<R> t(D);
+         for(int i = 0; i < D; i++) t[i] = Num<R>::from(ms[k][i]);
+         *S[k] = t;
+         if(g.r(0, 1)) S[k]->setup();
+      }
+      for(int k = 0; k < 3; k++) setSparse(k, genDense(g, g.r(1, std::min(D, 6))), g);
    }
    ~VecRunner()
    {
@@ -2715,7 +2810,7 @@ struct VecRunner
    Dense genDense(Rng& g, int nnz)
    {
       Dense d(D, Q(0));
-      for(int i : ridx(g, nnz, D)) d[i] = rval<R>(g);
+      for(int i : ridx(g, nnz, D)) d[i] = rv(g);
       return d;
    }
    void setSparse(int id, const Dense& d, Rng& g)
@@ -2731,15 +2826,22 @@ struct VecRunner
       }
       msp[id] = d;
    }
+   // scaleAssign: dst = src * 2^e (one exponent, or one exponent per index, optionally negated)
+   bool scaleAssign(bool dense, int a2, int sa, int sb, int e, long i4);
    void scalarCheck(const Q& got, const Q& want, const char* what)
    {
       CHK(got == want, std::string(what) + " differs from dense arithmetic");
    }
    void step(const Rec& r)
    {
-      const std::string& o = cx.op;
       int a2 = modn(r.i(1), 2), b2 = modn(r.i(2), 2), a3 = modn(r.i(1), 3), b3 = modn(r.i(2), 3);
       int sa = modn(r.i(1), 3), sb = modn(r.i(2), 4);       // sparse destination (writable) / sparse source
+      const std::string& o = cx.op;
+      // operations on two operands of the same kind take two different objects
+      if(o == "v_set_v") b2 = 1 - a2;
+      if(o.find("ssv") != std::string::npos && o.rfind("ssv") != o.find("ssv") && b3 == a3) b3 = (a3 + 1) % 3;
+      if((o == "a2p" || o == "a2p4setup" || o == "a2pandsetup" || o == "ssv_setup_and_assign") && b3 == a3) b3 = (a3 + 1) % 3;
+      if(o == "sv_set_sv" && sb == sa) sb = (sa + 1) % 4;
       Q x = r.q(3);
       if(x == 0) x = 1;
       long i4 = r.i(4);
@@ -2763,7 +2865,7 @@ struct VecRunner
          setSparse(sa, genDense(g, modn(i4, std::min(D, 6) + 1)), g);
       else if(o == "ssv_fill")
       {
-         nv = genDense(g, modn(i4, D + 1));
+         nv = genDense(g, modn(i4, (i4 & 1 ? D : D / 3) + 1));
          if(modn(r.i(2), 2))
          {
             // through the set-up interface: clear() + add(i, x) in seed order (index set not sorted)
@@ -2859,6 +2961,33 @@ struct VecRunner
          V[a2] *= xr;
          mv[a2] = nv;
       }
+      else if(o == "v_scaleassign" || o == "sv_scaleassign")
+      {
+         if(Num<R>::exact) return cx.skipped();      // scaleAssign is declared for Real vectors only
+         if(!scaleAssign(o == "v_scaleassign", a2, sa, sb, (int) modn(i4, 5) - 2, i4)) return;
+      }
+      else if(o == "stablesum")
+      {
+         sp::StableSum<R> acc;
+         Q want = 0;
+         int cnt = modn(i4, 30);
+         for(int k = 0; k < cnt; k++)
+         {
+            Q q = rv(g) * (g.r(0, 3) == 0 ? 512 : 1);
+            if(g.r(0, 2) == 0)
+            {
+               acc -= Num<R>::from(q);
+               want -= q;
+            }
+            else
+            {
+               acc += Num<R>::from(q);
+               want += q;
+            }
+         }
+         R got = acc;
+         scalarCheck(Num<R>::to(got), want, "StableSum");
+      }
       else if(o == "v_norms")
       {
          scalarCheck(Num<R>::to(V[a2].maxAbs()), maxAbsQ(mv[a2]), "Vector::maxAbs()");
@@ -2917,7 +3046,7 @@ struct VecRunner
          for(int i = 0; i < D; i++) if(msp[sa][i] == 0) fr.push_back(i);
          if(fr.empty() || spw(sa).size() >= D) return cx.skipped();
          int i = fr[modn(i4, (int) fr.size())];
-         Q q = rval<R>(g);
+         Q q = rv(g);
          if(sa < 2) DS[sa].add(i, Num<R>::from(q));
          else P.add(i, Num<R>::from(q));
          msp[sa][i] = q;
@@ -3077,7 +3206,7 @@ struct VecRunner
       else if(o == "ssv_setvalue")
       {
          int i = modn(i4, D);
-         Q q = modn(r.i(2), 4) == 0 ? Q(0) : rval<R>(g);
+         Q q = modn(r.i(2), 4) == 0 ? Q(0) : rv(g);
          S[a3]->setValue(i, Num<R>::from(q));
          ms[a3][i] = q;
       }
@@ -3101,7 +3230,7 @@ struct VecRunner
          for(int i = 0; i < D; i++) if(ms[a3][i] == 0 && S[a3]->pos(i) < 0) fr.push_back(i);
          if(fr.empty()) return cx.skipped();
          int i = fr[modn(i4, (int) fr.size())];
-         Q q = rval<R>(g);
+         Q q = rv(g);
          S[a3]->add(i, Num<R>::from(q));
          ms[a3][i] = q;
       }
@@ -3194,6 +3323,7 @@ struct VecRunner
          if(!allOk(nv)) return cx.skipped();
          if(!S[a3]->isSetup()) S[a3]->setup();         // operator*= requires a set-up vector
          *S[a3] *= xr;
+         CHK(S[a3]->isSetup(), "scaling a set-up vector by a nonzero factor changed the setup status");
          ms[a3] = nv;
       }
       else if(o == "ssv_norms")
@@ -3220,10 +3350,35 @@ struct VecRunner
          else if(o == "a2p4setup")
          {
             if(!S[b3]->isSetup()) S[b3]->setup();
+            if(Num<R>::exact && cx.known.count("ssvector-rational-marker"))
+            {
+               // known finding: a partial sum that cancels to exactly 0 is replaced by the marker 1e-100, which is not
+               // absorbed by a later addition in exact arithmetic. Avoid exactly the cases where a cancelled position
+               // receives another contribution (in the order the product is accumulated).
+               Dense part(D, Q(0));
+               std::vector<char> touched(D, 0);
+               bool sig = false;
+               for(int k = 0; k < S[b3]->size(); k++)
+               {
+                  int i = S[b3]->index(k);
+                  for(int j = 0; j < A[i].size(); j++)
+                  {
+                     int c = A[i].index(j);
+                     if(touched[c] && part[c] == 0) sig = true;
+                     part[c] += ms[b3][i] * mA[i][c];
+                     touched[c] = 1;
+                  }
+               }
+               if(sig)
+               {
+                  ev().count("excluded_known.ssvector-rational-marker");
+                  return cx.skipped();
+               }
+            }
             int ns = 0, nf = 0;
             S[a3]->assign2product4setup(A, *S[b3], nullptr, nullptr, ns, nf);
             CHK(ns + nf == 1, "assign2product4setup() did not count exactly one call");
-            cx.count(ns ? "a2p4setup.sparse" : "a2p4setup.full");
+            cx.count(ns ? (S[b3]->size() == 1 ? "a2p4setup.single" : "a2p4setup.short") : "a2p4setup.full");
          }
          else
          {
@@ -3253,6 +3408,53 @@ struct VecRunner
       check();
    }
 };
+
+template <> bool VecRunner<Rat>::scaleAssign(bool, int, int, int, int, long)
+{
+   return true;
+}
+template <> bool VecRunner<double>::scaleAssign(bool dense, int a2, int sa, int sb, int e, long i4)
+{
+   std::vector<int> exps(D);
+   Rng g((uint64_t) i4 + 99);
+   for(auto& x : exps) x = g.r(-2, 2);
+   int mode = modn(i4 / 5, 3);       // 0: single exponent, 1: per index, 2: per index negated
+   auto factor = [&](int i)
+   {
+      return q2pow(mode == 0 ? e : mode == 1 ? exps[i] : -exps[i]);
+   };
+   if(dense)
+   {
+      int b2 = 1 - a2;
+      Dense nv(D);
+      for(int i = 0; i < D; i++) nv[i] = mv[b2][i] * factor(i);
+      if(!allOk(nv))
+      {
+         cx.skipped();
+         return true;
+      }
+      if(mode == 0) V[a2].scaleAssign(e, V[b2]);
+      else V[a2].scaleAssign(exps.data(), V[b2], mode == 2);
+      mv[a2] = nv;
+   }
+   else
+   {
+      if(sb == sa) sb = (sa + 1) % 4;
+      Dense nv(D);
+      for(int i = 0; i < D; i++) nv[i] = msp[sb][i] * factor(i);
+      if(!allOk(nv))
+      {
+         cx.skipped();
+         return true;
+      }
+      if(sa < 2) DS[sa].setMax(spw(sb).size() + 1);
+      sp::SVectorBase<double>& dst = spw(sa);
+      if(mode == 0) dst.scaleAssign(e, spw(sb));
+      else dst.scaleAssign(exps.data(), spw(sb), mode == 2);
+      msp[sa] = nv;
+   }
+   return true;
+}
 
 // ================================================================================================ generator
 struct OpSpec
@@ -3285,7 +3487,7 @@ static const std::vector<KindSpec>& kinds()
       {"edit_val", 2, 0}, {"edit_rm", 2, 0}, {"edit_sort", 1, 0}, {"set_side", 2, 0}, {"remove_num", 4, 0},
       {"remove_key", 3, 0}, {"remove_ptr", 2, 0}, {"remove_perm", 3, 0}, {"remove_nums", 2, 0}, {"remove_keys", 2, 0},
       {"clear", 1, 0}, {"remax_grow", 2, 0}, {"remax_any", 2, RS}, {"memremax", 3, 0}, {"mempack", 3, 0}, {"copy", 3, 0},
-      {"assign", 3, 0}
+      {"assign", 3, 0}, {"xcopy", 2, 0}
    };
    static const std::vector<OpSpec> nameOps =
    {
@@ -3334,6 +3536,7 @@ static const std::vector<KindSpec>& kinds()
       {"v_add_v", 1, 0}, {"v_sub_v", 1, 0}, {"v_multadd_v", 1, 0}, {"v_plus", 1, 0}, {"v_minus", 1, 0}, {"v_neg", 1, 0},
       {"v_add_sv", 2, 0}, {"v_sub_sv", 2, 0}, {"v_multadd_sv", 2, 0}, {"v_multsub_sv", 2, 0}, {"sv_minus_v", 1, 0},
       {"v_add_ssv", 2, 0}, {"v_sub_ssv", 2, 0}, {"v_multadd_ssv", 2, 0}, {"v_scale", 1, 0}, {"v_norms", 1, 0},
+      {"v_scaleassign", 1, 0}, {"sv_scaleassign", 1, "svector-scaleassign-size"}, {"stablesum", 1, 0},
       {"v_dot_v", 1, 0}, {"v_dot_sv", 2, 0}, {"sv_dot_v", 2, 0}, {"v_dot_ssv", 2, 0}, {"sv_dot_ssv", 2, 0}, {"sv_dot_sv", 3, 0},
       {"ssv_dot_ssv", 3, 0},
       {"sv_add", 3, 0}, {"sv_add_zero", 1, 0}, {"sv_remove", 2, 0}, {"sv_remove_range", 2, 0},
@@ -3374,6 +3577,7 @@ static bool opUsable(const std::string& kind, const OpSpec& o, const std::set<st
    if(lpKind(kind) && (n == "add_arr" || n == "create" || n == "addmany" || n == "addmany_nokey" || n == "add2" ||
                        n == "remove_ptr" || n == "remove_keys")) return false;
    if(!lpKind(kind) && n == "set_side") return false;
+   if(lpKind(kind) && n == "remove_nums" && known.count("lpset-remove-nums-sides")) return false;
    if(kind == "carray" && n == "insert_val") return false;
    if(kind == "idxset" && n == "setmax") return false;
    return true;
@@ -3426,6 +3630,8 @@ static void gen(Case& c)
    {
       int p = R(0, wtot - 1);
       const OpSpec* o = usable[0];
+      // growth phase: the first few operations of a container case are mostly plain insertions (first table entry)
+      if(!vecKind && kind != "sorter" && t < std::min(5, nops / 3) && P(70)) p = 0;
       for(auto* u : usable)
       {
          o = u;
@@ -3444,7 +3650,8 @@ static void gen(Case& c)
             continue;
          }
       }
-      if((n == "copy" || n == "assign") && (kind.compare(0, 5, "svset") == 0 || lpKind(kind)) && known.count("svset-assign-empty-mem"))
+      if(n == "xcopy" && rational) continue;
+      if((n == "copy" || n == "assign" || n == "xcopy") && (kind.compare(0, 5, "svset") == 0 || lpKind(kind)) && known.count("svset-assign-empty-mem"))
       {
          // known finding svset-assign-empty-mem: make sure the nonzero memory is not empty when the set is copied
          Rec r("op");
@@ -3613,14 +3820,14 @@ static Verdict run(const Case& c)
       else if(kind == "vec_d")
       {
          vec = true;
-         VecRunner<double> rn(cx, 2 + p1, p3);
+         VecRunner<double> rn(cx, 3 + p2 % 14, p3);
          rn.check();
          drive(cx, c, rn);
       }
       else if(kind == "vec_q")
       {
          vec = true;
-         VecRunner<Rat> rn(cx, 2 + p1, p3);
+         VecRunner<Rat> rn(cx, 3 + p2 % 14, p3);
          rn.check();
          drive(cx, c, rn);
       }
